@@ -379,6 +379,13 @@ func genC01(g *G) {
 	for _, in := range longIDNNames() {
 		add(in, "")
 	}
+	// addresses whose text is long because of the zone
+	for _, a := range []string{"fe80:1111:2222:3333:4444:5555:6666:7777%enp0s31f6", "fe80::1%" + strings.Repeat("z", 40), "fe80::1%" + strings.Repeat("z", 300), "::ffff:1.2.3.4%" + strings.Repeat("q", 60)} {
+		add(a, "")
+		add(a+" host.example alias", "")
+		add("["+a+"]:53", "")
+		add("host.example", a)
+	}
 	// lines beyond bufio's 64 KiB token limit, in the middle and at the end of a text
 	for _, n := range []int{65535, 65537, 70000} {
 		long := "1.2.3.4 " + strings.Repeat("a", n-8)
